@@ -290,10 +290,10 @@ Proof.
         exists tt. split; [now apply binop_arith|reflexivity].
       - destruct (String.eqb_spec op "<<") as [->|_].
         + apply c_shift_exact in H. destruct H as (F & Hb & ->). split; [assumption|].
-          exists tt. split; [apply binop_shift; assumption|reflexivity].
+          exists tt. split; [apply binop_shift; lia|reflexivity].
         + destruct (String.eqb_spec op ">>") as [->|_]; [|discriminate].
           apply c_shift_exact in H. destruct H as (F & Hb & ->). split; [assumption|].
-          exists tt. split; [apply binop_shift; assumption|reflexivity]. }
+          exists tt. split; [apply binop_shift; lia|reflexivity]. }
     destruct G as (F & _ & B & _). apply andb_true_iff in F. destruct F as [-> ->].
     simpl. destruct (IHl _ _ eq_refl) as [-> | ->]; simpl; auto.
     destruct (IHr _ _ eq_refl) as [-> | ->]; simpl; auto.
